@@ -135,7 +135,7 @@ class ExchangeDomain(Domain):
     """Tracked facts: sent (a sendall was started), closed (Client.close passed since), caught (colour of an
     exception intercepted since the sendall), reads (reader calls since the sendall: 0 / 1 = one or more)."""
 
-    global_keys = ("sent", "closed", "caught", "reads", "noreply_root", "nread")
+    global_keys = ("#sent", "#closed", "#caught", "#reads", "#noreply_root", "#nread")
 
     def __init__(self, prog, fn, readers, reader_methods=None, with_async=True, helpers=None):
         super().__init__(prog, fn)
@@ -149,7 +149,7 @@ class ExchangeDomain(Domain):
         self.n_close_calls = set()
 
     def init_state(self, fn_node):
-        return Env({"sent": 0, "closed": 0, "caught": None, "reads": 0})
+        return Env({"#sent": 0, "#closed": 0, "#caught": None, "#reads": 0})
 
     def truth(self, v, state=None):
         if isinstance(v, Truthiness):
@@ -174,10 +174,10 @@ class ExchangeDomain(Domain):
         return super().assume_name(key, value, branch, state)
 
     def on_catch(self, handler, exc, state):
-        if state.get("sent", 0):
-            cur = state.get("caught", None)
+        if state.get("#sent", 0):
+            cur = state.get("#caught", None)
             if cur != ASYNC:
-                state = state.set("caught", exc.colour)
+                state = state.set("#caught", exc.colour)
         return state
 
     def is_reader_call(self, node, fval):
@@ -195,11 +195,11 @@ class ExchangeDomain(Domain):
         name = call_name(node)
         if isinstance(node.func, ast.Attribute) and node.func.attr == "sendall":
             self.n_sendall += 1
-            s2 = state.update({"sent": 1, "closed": 0, "caught": None, "reads": 0})
+            s2 = state.update({"#sent": 1, "#closed": 0, "#caught": None, "#reads": 0})
             return [("ok", NONE, s2.set("self.sock", Neq(None)))] + self.call_raises(node, s2)
         if name in ("self.close", "self.disconnect_all"):
             self.n_close_calls.add(node.lineno)
-            s2 = state.set("closed", 1).set("self.sock", NONE)
+            s2 = state.set("#closed", 1).set("self.sock", NONE)
             # Client.close is summarised as not raising (C06.R6); an interruption inside the cleanup call itself is
             # not an interruption point of the property's quantifier.
             return [("ok", NONE, s2)]
@@ -208,7 +208,7 @@ class ExchangeDomain(Domain):
         if self.is_reader_call(node, fval):
             self.n_reader_calls.add(node.lineno)
             self.events.append(("read", node, state))
-            s2 = self.on_read(node, args, state.set("reads", 1))
+            s2 = self.on_read(node, args, state.set("#reads", 1))
             return [("ok", TOP, s2)] + self.call_raises(node, state)
         if name == "self._connect":
             return [("ok", NONE, state.set("self.sock", Neq(None)))] + self.call_raises(node, state)
@@ -246,13 +246,13 @@ def close_obligations(prog, fn, runs, colour):
     res = []
     for cfg, outs, dom, interp in runs:
         for s, exc, t in outs.of("exc"):
-            if exc.colour != colour or not s.get("sent"):
+            if exc.colour != colour or not s.get("#sent"):
                 continue
-            ok = bool(s.get("closed"))
+            ok = bool(s.get("#closed"))
             res.append((ok, "raise", exc, cfg, t, s))
         for s, v, t in outs.of("ret"):
-            if s.get("sent") and s.get("caught") == colour:
-                ok = bool(s.get("closed"))
+            if s.get("#sent") and s.get("#caught") == colour:
+                ok = bool(s.get("#closed"))
                 res.append((ok, "swallow", None, cfg, t, s))
     return res
 
